@@ -262,3 +262,43 @@ name_harness!(c13_t_name_separators, b"Noise?XX?25519?AESGCM?SHA256");
 name_harness!(c13_t_name_trailing, b"Noise_NN_25519_AESGCM_SHA512?");
 name_harness!(c13_t_name_leading, b"?Noise_NN_448_ChaChaPoly_BLAKE2s");
 name_harness!(c13_t_name_case, b"Noise_XXpsk3_25519_ChaChaPoly_BLAKE2?");
+
+/// Modifier tokens as templates with symbolic holes: repeated / displaced prefixes, digit positions, near-misses of
+/// "fallback". Concrete skeletons keep the string searchers concrete (a fully symbolic token under a changed parser can
+/// time out, which is inconclusive rather than a verdict).
+macro_rules! modifier_template {
+    ($name:ident, $tmpl:expr) => {
+        #[kani::proof]
+        #[kani::unwind(12)]
+        pub fn $name() {
+            const T: &[u8] = $tmpl;
+            let mut b = [0u8; T.len()];
+            let mut i = 0;
+            while i < T.len() {
+                b[i] = if T[i] == b'?' { hole() } else { T[i] };
+                kani::assume(b[i] != b'+');
+                i += 1;
+            }
+            let s = unsafe { core::str::from_utf8_unchecked(&b) };
+            let r: Result<HandshakeModifier, Error> = s.parse();
+            let want = grammar::modifier(&b);
+            kani::cover!(true, "C13 modifier template reached");
+            assert!(r.is_ok() == want.is_some(), "C13: modifier token accepted iff the grammar accepts it");
+            assert!(r.is_ok() || is_pattern_err(&r), "C13: rejection must be a pattern error");
+            match (r, want) {
+                (Ok(HandshakeModifier::Psk(a)), Some(grammar::Modifier::Psk(c))) => assert!(a == c, "C13: psk index"),
+                (Ok(HandshakeModifier::Fallback), Some(grammar::Modifier::Fallback)) => {},
+                (Ok(_), _) => assert!(false, "C13: modifier component differs from the named one"),
+                _ => {},
+            }
+        }
+    };
+}
+modifier_template!(c13_q_modtmpl_psk_digit, b"psk?");
+modifier_template!(c13_q_modtmpl_psk_two, b"psk??");
+modifier_template!(c13_q_modtmpl_pskpsk, b"pskpsk?");
+modifier_template!(c13_q_modtmpl_psk_then_text, b"psk?psk");
+modifier_template!(c13_q_modtmpl_fallback_last, b"fallbac?");
+modifier_template!(c13_q_modtmpl_fallback_first, b"?allback");
+modifier_template!(c13_t_modtmpl_psk_three, b"psk???");
+modifier_template!(c13_t_modtmpl_ppsk, b"?psk1");
